@@ -479,7 +479,15 @@ def r10_body_stream_errors_are_errors(ctx):
         R.check(ok, "C07.R10", "read_body:frame-error-is-an-error", "an error frame ends read_body with an error", "read_body can go on (or return Ok) after the body stream reported an error: the size limit of a body without Content-Length is signalled exactly that way, so an oversized chunked request is cut at the limit and its first part is parsed and dispatched", "%s:%d" % (rb.file, block_line(rb, et)))
 
 
-RULES = [r10_body_stream_errors_are_errors, rhyper_vetted_transport_options, r9_receive_error_reaches_the_loop, r8_ws_receive_buffer_fresh, r1_ws_frame_limit, r2_http_limit, r3_plumbing, r4_limit_before_read, r5_ws_oversize_arm, r6_size_gates, r7_server_builder_fields, rsib_entry_points_agree, rcfg_config_verbatim, rstatus_http_status_table, rin_inbound_limits_from_request_limit]
+def rloop_the_receive_loop_waits_for_messages_only(ctx):
+    """the answer to an oversized message does not depend on other settings: the WS receive loop suspends at its vetted
+    points only (a slot of the outgoing queue reserved up front makes the -32007 reply wait for a second slot, which a
+    queue of capacity 1 never has) (= C10.LOOP)"""
+    from .common import event_loops_suspend_only_where_vetted, EVENT_LOOPS
+    event_loops_suspend_only_where_vetted(ctx, "C07.LOOP", EVENT_LOOPS, "the reply to an oversized message waits for something unrelated to the size limit")
+
+
+RULES = [rloop_the_receive_loop_waits_for_messages_only, r10_body_stream_errors_are_errors, rhyper_vetted_transport_options, r9_receive_error_reaches_the_loop, r8_ws_receive_buffer_fresh, r1_ws_frame_limit, r2_http_limit, r3_plumbing, r4_limit_before_read, r5_ws_oversize_arm, r6_size_gates, r7_server_builder_fields, rsib_entry_points_agree, rcfg_config_verbatim, rstatus_http_status_table, rin_inbound_limits_from_request_limit]
 
 LEVEL_TEXT = (
     "Structural necessary conditions decided exactly from the type-checked program: which configuration field every "
